@@ -65,7 +65,11 @@ def ad(prop, rule):
 PLANS["C17"] = ad("C17", "each evaluation is one seeded run of the admin world: real nsqadmin with a drawn admin list / ACL header / config CIDR in front of recording stub upstreams; every mutating route with every identity variant (absent, empty, non-admin, admin, case/whitespace/prefix look-alikes, right user in the wrong header, list of users) and /config from source addresses inside/outside/at the edge of the CIDR (v4 and v6); oracles: not authorised => 403 and ZERO upstream requests in that step, authorised => carried out on every relevant lookupd and producer (stub request log), read views available; distinct = distinct schedule fingerprint")
 PLANS["C18"] = ad("C18", "each evaluation is one seeded run of the admin world: 0-3 stub lookupds and 1-4 stub nsqds with generated topics/channels/clients/counters (zero, huge, optional fields missing, nodes unknown to some lookupds, tombstones), lookupd and direct mode; any subset of upstreams failing by refuse / blackhole / reset mid-body / HTTP 500 / malformed JSON / inconsistent arrays / empty body; oracle: /api/topics, /api/topics/:t, /api/topics/:t/:c, /api/nodes, /api/counter equal a reference union/sum over the healthy upstreams, partial failure => 200 with a warning, total failure => 502, nsqadmin answers /ping after every step; distinct = distinct schedule fingerprint")
 
-WORLD_BIN = {"queue": "world", "lookupd": "world", "proto": "world", "meta": "world", "cluster": "world", "admin": "world"}
+PLANS["C11"] = dict(stages=[dict(bin="world", world="policy", prop="C11", share=1.0)], quick_s=30, thorough_s=600, level="exploration",
+    rule="each evaluation is one seeded run of the policy world: one real nsqd with a drawn TLS mode (not required / tcp-https / required), optional server certificate, client-certificate policy (none / require / require-verify) and 0-2 stub auth servers (GET or POST) serving a grant table that generated operations change; three raw TCP connections (no IDENTIFY, plain IDENTIFY, TLS upgrade with no / CA-signed / self-signed client certificate, plaintext command pipelined behind the TLS-negotiating IDENTIFY) issue AUTH/PUB/MPUB/DPUB/SUB/NOP/RDY/CLS, plaintext HTTP and HTTPS requests, clock advances across TTLs, auth-server failure modes (500, 403, garbage, reset, stall, ttl 0, unknown permission, bad regex); a reference gate predicts OK or the documented fatal error, the auth stub checks that every query describes the connection truthfully, and after every operation nsqd's registry (topics, channels, message counts) must equal the reference registry; distinct = distinct schedule fingerprint",
+    components=dict(real=REAL_Q + ["internal/auth (QueryAnyAuthd over simnet)", "crypto/tls server and client handshakes with the repository's test certificates"], stub=STUB_Q + ["stub auth servers (HTTP handlers in the harness)"]), assumptions=ASSUME, crash_property="C11")
+
+WORLD_BIN = {"policy": "world", "queue": "world", "lookupd": "world", "proto": "world", "meta": "world", "cluster": "world", "admin": "world"}
 SELFTEST_WORLDS = [("queue", "ALL"), ("queue", "C08"), ("queue", "C05"), ("lookupd", "C14"), ("lookupd", "C15")]
 ALL_TARGETS = ["world"]
 
@@ -97,12 +101,12 @@ MANIFEST_TEXT["C06"] = mt("fault enumeration: every simos hook boundary of every
 
 MANIFEST_TEXT["C16"] = mt("seeded search over interleavings of nsqd topic/channel churn with lookupd fault sequences (network faults from simnet, restarts, a hostile stub) against real nsqd and nsqlookupd; oracles: liveness of nsqd (crash attribution, answer latency bound), channel pre-creation on first publish, bounded-time convergence of every lookupd's registrations to nsqd's registry once faults stop.", "DESIGN.md 3 C16", "deterministic simulation: fault injection on the lookupd links + convergence oracle")
 
+MANIFEST_TEXT["C11"] = mt("seeded search over policy configurations and command sequences against the real nsqd with real TLS handshakes and stub auth servers whose answers change and fail; oracle: reference gate (TLS gate before everything but IDENTIFY, 403 for plaintext HTTP, E_AUTH_FIRST / E_UNAUTHORIZED / E_AUTH_FAILED, TTL re-fetch) plus registry equality after every operation (a denial leaves no topic, channel or message; a grant is executed) and truthfulness of the auth query.", "DESIGN.md 3 C11", "deterministic simulation: reference policy gate + registry equality")
+
 MANIFEST_TEXT["C17"] = mt("seeded search over route x identity x admin-list x header-name x source-address configurations against the real nsqadmin in front of recording stub upstreams; oracle: 403 and zero upstream requests for every unauthorised mutation, fan-out to every relevant upstream for authorised ones, CIDR gate on /config. Input- and configuration-driven; the simulator contributes source addresses, the per-step upstream request log and determinism.", "DESIGN.md 3 C17", "deterministic simulation: authorisation matrix with upstream request log")
 MANIFEST_TEXT["C18"] = mt("seeded search over generated cluster contents and upstream fault subsets against the real nsqadmin/clusterinfo; oracle: reference union/sum aggregation computed from the stub data, warning/502 mapping, liveness after every request.", "DESIGN.md 3 C18", "deterministic simulation: reference aggregation under upstream faults")
 
 NOT_APPLICABLE = {
- "C11": "not yet built in this session",
-
  "C19": "not yet built in this session",
  "C20": "not yet built in this session",
 }
